@@ -151,7 +151,7 @@ def wire_op(op):
 
 
 class Case:
-    __slots__ = ("tag", "param", "op", "nounset", "setup", "word", "probe", "wire", "feat")
+    __slots__ = ("tag", "param", "op", "nounset", "setup", "word", "probe", "wire", "feat", "no_oracle")
 
     def __init__(self, tag, param, op, nounset=False):
         self.tag, self.param, self.op, self.nounset = tag, param, op, nounset
@@ -163,6 +163,7 @@ class Case:
         self.setup, self.word, self.probe = setup, render_op(name, op), probe
         self.wire = "C06 %d %s %s" % (1 if nounset else 0, wire_param(param), wire_op(op))
         self.feat = op[0]
+        self.no_oracle = False
 
     def key(self):
         return (self.setup, self.word)
@@ -187,6 +188,9 @@ class IndCase(Case):
         self.setup, self.word, self.probe = setup, render_op("!r", op), probe
         self.wire = "C06 %d IND %s %s %s" % (1 if nounset else 0, ref, wire_param(target), wire_op(op))
         self.feat = "ind-" + op[0]
+        # bash's own `${!r…}` with r naming a[@] / a[*] / @ / * is not `${a[@]…}` (empty lists under nounset, a single
+        # null element, $0 in slices, the $* join): list references are tied to the model only
+        self.no_oracle = ref == "ok" and target[0] in ("all", "posall")
 
 
 class Direct:
@@ -557,6 +561,9 @@ def indirect_random(ctx, n):
     return out
 
 
+SET_SCALARS = {("v=", "v"), ("v='ab'", "v"), ("a=(q 'ab')", "a[1]"), ("set -- ab", "1"), ("declare -A A=([k]=ab)", "A[k]")}
+
+
 def unmodelled_state_table(ctx):
     """replacement, case modification and @-transformations over state x nounset x indirection: brush against bash"""
     out = []
@@ -568,8 +575,10 @@ def unmodelled_state_table(ctx):
         for op in ops:
             for nu in (False, True):
                 tail = "\nset -u" if nu else ""
-                out.append(Direct("state-" + op.strip("/^,@")[:1] + ("u" if nu else ""), setup + tail, '"${%s%s}"' % (name, op)))
-                out.append(Direct("ind-unmodelled", setup + "\nr=" + sq(name) + tail, '"${!r%s}"' % op))
+                attr = op in ("@a", "@A") and (setup, name) not in SET_SCALARS
+                out.append(Direct("attr-unset-or-list" if attr else "state-unmodelled", setup + tail, '"${%s%s}"' % (name, op)))
+                out.append(Direct("attr-unset-or-list" if attr else "ind-unmodelled", setup + "\nr=" + sq(name) + tail,
+                                  '"${!r%s}"' % op))
     for op in ops:
         for nu in (False, True):
             for rs in ("unset r", "r=", "r='1x'"):
@@ -695,6 +704,8 @@ def direct_clause(c, b, o):
         return "pattern_anchors_at_newlines"
     if c.feat == "sparse-slice":
         return "sparse_array_slice_by_position"
+    if c.feat == "attr-unset-or-list":
+        return "transform_attr_on_unset_or_list"
     mt = re.search(r"([@+*?!])\(([^()]*)\)", c.word)
     if c.feat == "replace-extglob" and mt:
         kind, alts = mt.group(1), mt.group(2).split("|")
@@ -722,6 +733,7 @@ def load_corpus():
                         c = Case.__new__(Case)
                         c.tag, c.param, c.op, c.nounset = "corpus", None, None, False
                         c.setup, c.word, c.probe, c.wire = rec["setup"], rec["word"], rec["probe"], rec["wire"]
+                        c.no_oracle = False
                         c.feat = rec["wire"].split(" ")
                         c.feat = next((t for t in ("plain", "len", "sub", "rmx", "rm") if t in c.feat), "test")
                     else:
@@ -773,6 +785,13 @@ def evaluate(ctx, cases, bouts, oouts, mouts, limit=25):
         ctx.count(c.key(), nontrivial=True, bucket=c.tag + ":" + c.feat)
         ctx.bucket("in_domain" if not clauses else "outside_domain")
         case = dict(c.as_json(), brush=b, bash=o, model=impl, spec=spec, outside_guard=clauses)
+        if getattr(c, "no_oracle", False):
+            ctx.bucket("model_only")
+            if not same(b, impl) and nviol < limit:
+                nviol += 1
+                ctx.violation("the Lean model and brush disagree (correspondence broken) on a reference to a list",
+                              case, kind="correspondence")
+            continue
         if not same(o, spec):
             ctx.oracle_mismatch += 1
             if len(ctx.notes) < 10:
